@@ -1198,3 +1198,68 @@ def rf85b(run):
                           'process_reserved_name (…, &module->last_temp_item_num): an item of this kind named `.lcN` leaves the counter of the module '
                           'read back too low and MIR_load_module later creates a second `.lcN`' % F.src(x)[:50], line=x['l'])
     return n
+
+
+# ---------------------------------------------------------------------------------------------
+# RF115: every opcode the binary writer emits is accepted by the binary reader
+# ---------------------------------------------------------------------------------------------
+
+def rf115(run):
+    from lib import printexec as PE
+    rule = 'RF115'
+    run.rule(rule, 'write_insn and the instruction branch of MIR_read_with_func: the tests that end in the error function are evaluated for '
+                   'every value of MIR_insn_code_t.  An opcode the writer emits as an instruction code (everything it does not reject; '
+                   'labels have tags of their own) is not rejected by the reader')
+    tu = run.tu('mir')
+    w = tu.func('write_insn')
+    r = tu.func('MIR_read_with_func')
+    run.functions_analysed.update({('mir', w.name), ('mir', r.name)})
+    codes = [(n_, v) for n_, v in tu.enum('MIR_insn_code_t')]
+    bound = dict(codes)['MIR_INSN_BOUND']
+
+    def error_tests(f, var_names):
+        out = []
+        for x in f.walk():
+            if x['k'] != 'IfStmt':
+                continue
+            c = x['c'][0]
+            names = {F.src(y) for y in F.walk(c) if y['k'] == 'DeclRefExpr'}
+            if not (names & set(var_names)):
+                continue
+            # only tests on the opcode alone
+            if any(y['k'] in ('CallExpr', 'MemberExpr') for y in F.walk(c)):
+                continue
+            th = x['c'][1]
+            if th is not None and any(y['k'] == 'CallExpr' and 'MIR_get_error_func' in F.src(y) for y in F.walk(th)) and \
+                    not any(y['k'] in ('ForStmt', 'WhileStmt') for y in F.walk(th)):
+                out.append(c)
+        return out
+    wt = error_tests(w, ('code',))
+    rt = error_tests(r, ('insn_code',))
+    if not wt or not rt:
+        raise F.AnalysisBroken('RF115: opcode tests not found (writer %d, reader %d)' % (len(wt), len(rt)))
+
+    def rejected(tests, var, v):
+        for c in tests:
+            ex = PE.PrintExec(tu, {}, {}, {})
+            val = ex.val(c, {var: v})
+            if val is None:
+                raise F.AnalysisBroken('RF115: `%s` not evaluable' % F.src(c)[:60])
+            if val:
+                return True
+        return False
+    n = 0
+    for nm, v in codes:
+        if v >= bound or nm in ('MIR_LABEL', 'MIR_INVALID_INSN'):
+            continue
+        wr = rejected(wt, 'code', v)
+        rr = rejected(rt, 'insn_code', v)
+        ok = wr or not rr
+        n += 1
+        run.ob(rule, (nm,), ok, {'opcode': nm, 'writer emits': not wr, 'reader accepts': not rr} if n % 30 == 1 or not ok else None)
+        if not ok:
+            run.violation(rule, r, 'opcode %s' % nm, 'MIR_write emits the instruction code of %s (%d) but MIR_read rejects it (one of: %s): a module '
+                          'using this instruction cannot be read back' % (nm, v, '; '.join(F.src(c)[:50] for c in rt)), line=rt[0]['l'])
+    if n < 150:
+        raise F.AnalysisBroken('RF115: only %d opcodes compared' % n)
+    return n
